@@ -7,4 +7,6 @@ CONSTANTS
     LazyDirs <- LazyDef
     Filters <- FiltersDef
     FilterKeys <- FilterKeysDef
+    Changed <- ChangedDef
+    ChangedLazy <- ChangedLazyDef
     MaxSteps = 100000
